@@ -14,7 +14,6 @@ from ..markovchain.markovchain import running_values_over_intervals
 from ..markovchain.markovchainlevycopula import MarkovChainLevyCopula
 from ...distribution.sampling import SamplingMethod
 from ...distribution.univariate.uniform import Uniform
-from ...grid.grid import CoordinateND
 from ...grid.spatial import CTMCGrid
 from ...model.levycopulamodel import LevyCopulaModel
 from ...montecarlo.path import StochasticJumpPath
@@ -177,7 +176,6 @@ class CouplingLevyCopulaSimulation:
             value = grid[position]
             u = self.coupling_process._uniform.sample()
 
-            projected_position = CoordinateND(position[k] for k in axis_coordinates)
 
             # the cell of the fine state is split, along the coordinates to project, at the state itself: each piece
             # belongs to the cell of one coarse state. The probabilities are the masses of the pieces of this very
@@ -189,7 +187,11 @@ class CouplingLevyCopulaSimulation:
 
             probability = 0
             for p in product([-1, 1], repeat=len(axis_coordinates)):
-                p_value = grid[projected_position + p]
+                # neighbours of the state along the coordinates to project, each taken on its own axis
+                p_value = tuple(
+                    grid.axes[k][position[k] + direction]
+                    for k, direction in zip(axis_coordinates, p)
+                )
                 p_left_value, p_right_value = list(mid_left_value), list(mid_right_value)
                 for k, direction in zip(axis_coordinates, p):
                     if direction < 0:
